@@ -2,7 +2,7 @@
    ops:  ["parse", ty, s]  ["repr", ty, value]  ["valid", ty, s]  ["cast", pyval, ty]  ["floatspecial", s]
          ["names"]  ["ranges"]  and  ["batch", op, ty, [arg…]] = the list of the single results. -/
 import Basyx.Driver.Util
-import Basyx.Model.Lex
+import Basyx.Model.LexTyped
 import Basyx.Gen.XsdNames
 open Lean
 namespace Basyx.Driver.Lex
@@ -60,83 +60,73 @@ def optJ (f : α → Json) : Option α → Json
   | some v => okJ (f v)
   | none => raiseV
 
-def parseJ (τ : Ty) (s : Str) : Json :=
-  match τ with
-  | .duration => optJ durJ (parseDur s)
-  | .dateTime => optJ (fun v => Json.arr #[v.year, v.month, v.day, v.hour, v.minute, v.second, v.micro, tzJ v.tz]) (parseDateTime s)
-  | .date => optJ (fun v => Json.arr #[v.year, v.month, v.day, tzJ v.tz]) (parseDate s)
-  | .time => optJ (fun v => Json.arr #[v.hour, v.minute, v.second, v.micro, tzJ v.tz]) (parseTime s)
-  | .gYearMonth => optJ (fun v => Json.arr #[v.year, v.month, tzJ v.tz]) (parseGYearMonth s)
-  | .gYear => optJ (fun v => Json.arr #[v.year, tzJ v.tz]) (parseGYear s)
-  | .gMonthDay => optJ (fun v => Json.arr #[v.month, v.day, tzJ v.tz]) (parseGMonthDay s)
-  | .gMonth => optJ (fun v => Json.arr #[v.month, tzJ v.tz]) (parseGMonth s)
-  | .gDay => optJ (fun v => Json.arr #[v.day, tzJ v.tz]) (parseGDay s)
-  | .boolean => optJ (fun (b : Bool) => (b : Json)) (parseBool s)
-  | .base64Binary => optJ natsJ (b64decode s)
-  | .hexBinary => optJ natsJ (fromHex s)
-  | .float | .double =>
-    (match parseFloatSpecial s with
-     | some v => okJ (floatJ v)
-     | none => Json.arr #["not-special"])
-  | .decimal => optJ decJ (parseDec s)
-  | .anyURI | .string => okJ (ofChars s)
-  | .normalizedString => optJ ofChars (parseNormalized s)
-  | _ => optJ intJ (parseInt (rng τ) s)
+def tvJ : TV → Json
+  | .int _ v => intJ v
+  | .bool b => (b : Json)
+  | .str _ s => ofChars s
+  | .date v => Json.arr #[v.year, v.month, v.day, tzJ v.tz]
+  | .time v => Json.arr #[v.hour, v.minute, v.second, v.micro, tzJ v.tz]
+  | .dateTime v => Json.arr #[v.year, v.month, v.day, v.hour, v.minute, v.second, v.micro, tzJ v.tz]
+  | .gYear v => Json.arr #[v.year, tzJ v.tz]
+  | .gMonth v => Json.arr #[v.month, tzJ v.tz]
+  | .gDay v => Json.arr #[v.day, tzJ v.tz]
+  | .gYearMonth v => Json.arr #[v.year, v.month, tzJ v.tz]
+  | .gMonthDay v => Json.arr #[v.month, v.day, tzJ v.tz]
+  | .hex bs => natsJ bs
+  | .b64 bs => natsJ bs
+  | .dur d => durJ d
+  | .dec r => decJ r
+  | .flt _ v => floatJ v
 
-def reprJ (τ : Ty) (v : Json) : Json :=
+/-- the value of type `τ` described by a JSON argument; `none` = malformed argument -/
+def jTV (τ : Ty) (v : Json) : Option TV :=
   match τ with
-  | .duration => optJ ofChars (reprDur (jDur v))
+  | .duration => some (.dur (jDur v))
   | .dateTime => (match jarr v with
-    | [y, mo, d, h, mi, s, us, z] => okJ (ofChars (reprDateTime ⟨jnat y, jnat mo, jnat d, jnat h, jnat mi, jnat s, jnat us, jTz z⟩))
-    | _ => "bad")
+    | [y, mo, d, h, mi, s, us, z] => some (.dateTime ⟨jnat y, jnat mo, jnat d, jnat h, jnat mi, jnat s, jnat us, jTz z⟩)
+    | _ => none)
   | .date => (match jarr v with
-    | [y, m, d, z] => okJ (ofChars (reprDate ⟨jnat y, jnat m, jnat d, jTz z⟩))
-    | _ => "bad")
+    | [y, m, d, z] => some (.date ⟨jnat y, jnat m, jnat d, jTz z⟩)
+    | _ => none)
   | .time => (match jarr v with
-    | [h, mi, s, us, z] => okJ (ofChars (reprTime ⟨jnat h, jnat mi, jnat s, jnat us, jTz z⟩))
-    | _ => "bad")
+    | [h, mi, s, us, z] => some (.time ⟨jnat h, jnat mi, jnat s, jnat us, jTz z⟩)
+    | _ => none)
   | .gYearMonth => (match jarr v with
-    | [y, m, z] => optJ ofChars (reprGYearMonth ⟨jint y, jnat m, jTz z⟩)
-    | _ => "bad")
+    | [y, m, z] => some (.gYearMonth ⟨jint y, jnat m, jTz z⟩)
+    | _ => none)
   | .gYear => (match jarr v with
-    | [y, z] => optJ ofChars (reprGYear ⟨jint y, jTz z⟩)
-    | _ => "bad")
+    | [y, z] => some (.gYear ⟨jint y, jTz z⟩)
+    | _ => none)
   | .gMonthDay => (match jarr v with
-    | [m, d, z] => okJ (ofChars (reprGMonthDay ⟨jnat m, jnat d, jTz z⟩))
-    | _ => "bad")
+    | [m, d, z] => some (.gMonthDay ⟨jnat m, jnat d, jTz z⟩)
+    | _ => none)
   | .gMonth => (match jarr v with
-    | [m, z] => okJ (ofChars (reprGMonth ⟨jnat m, jTz z⟩))
-    | _ => "bad")
+    | [m, z] => some (.gMonth ⟨jnat m, jTz z⟩)
+    | _ => none)
   | .gDay => (match jarr v with
-    | [d, z] => okJ (ofChars (reprGDay ⟨jnat d, jTz z⟩))
-    | _ => "bad")
-  | .boolean => okJ (ofChars (reprBool (jbool v)))
-  | .base64Binary => okJ (ofChars (b64encode ((jarr v).map jnat)))
-  | .hexBinary => okJ (ofChars (hexEncode ((jarr v).map jnat)))
-  | .float | .double => okJ (ofChars (reprFloat (jFloat v)))
-  | .decimal => okJ (ofChars (reprDecR (jDec v)))
-  | .anyURI | .string | .normalizedString => okJ (ofChars (jchars v))
-  | _ => okJ (ofChars (intRepr (jIntStr v)))
+    | [d, z] => some (.gDay ⟨jnat d, jTz z⟩)
+    | _ => none)
+  | .boolean => some (.bool (jbool v))
+  | .base64Binary => some (.b64 ((jarr v).map jnat))
+  | .hexBinary => some (.hex ((jarr v).map jnat))
+  | .float | .double => some (.flt τ (jFloat v))
+  | .decimal => some (.dec (jDec v))
+  | .anyURI | .string | .normalizedString => some (.str τ (jchars v))
+  | _ => some (.int τ (jIntStr v))
 
-def validJ (τ : Ty) (s : Str) : Json :=
-  match τ with
-  | .duration => validDur s
-  | .dateTime => validDateTime s
-  | .date => validDate s
-  | .time => validTime s
-  | .gYearMonth => validGYearMonth s
-  | .gYear => validGYear s
-  | .gMonthDay => validGMonthDay s
-  | .gMonth => validGMonth s
-  | .gDay => validGDay s
-  | .boolean => validBool s
-  | .base64Binary => validB64 s
-  | .hexBinary => validHex s
-  | .float | .double => validFloat s
-  | .decimal => validDecimal s
-  | .anyURI | .string => true
-  | .normalizedString => validNormalized s
-  | _ => validInt s
+/-- `from_xsd`: through the model's dispatch `parseTV` (finite float literals are CPython's: "not-special") -/
+def parseJ (τ : Ty) (s : Str) : Json :=
+  match parseTV rng τ s with
+  | some tv => okJ (tvJ tv)
+  | none => if τ = .float ∨ τ = .double then Json.arr #["not-special"] else raiseV
+
+/-- `xsd_repr`: through the model's dispatch `reprTV` -/
+def reprJ (τ : Ty) (v : Json) : Json :=
+  match jTV τ v with
+  | some tv => optJ ofChars (reprTV tv)
+  | none => "bad"
+
+def validJ (τ : Ty) (s : Str) : Json := validTV τ s
 
 def jPyVal (j : Json) : PyVal :=
   match jarr j with
